@@ -1,5 +1,6 @@
 import GormModel.Drv.Util
 import GormModel.Model.Scan
+import GormModel.Model.SchemaAttrs
 import GormModel.Gen.BackfillFacts
 open Lean
 namespace Gorm.Drv
@@ -179,6 +180,51 @@ def parseMapEnts (j : Json) : Option (List (Option Int)) := do
     | Json.null => some none
     | _ => (jInt? x).map some)
 
+/-! round 4: declarations → schema attributes (Model.SchemaAttrs) -/
+
+def parseAKind (s : String) : Option Attrs.Kind :=
+  match s with
+  | "bool" => some .bool | "int" => some .int | "uint" => some .uint | "float" => some .float
+  | "string" => some .string | "time" => some .time | "bytes" => some .bytes | "other" => some .other | _ => none
+
+/-- declaration list: [["f", name, kind, tag, defCol, selfSer, ptr] | ["e", name, anon, tag, [kids…]], …] (fuel = nesting bound) -/
+def parseADecl : Nat → List Json → Option Attrs.Decl
+  | _, [] => some .nil
+  | 0, _ => none
+  | fuel + 1, j :: rest => do
+    let a ← jArr? j
+    let next ← parseADecl (fuel + 1 - 1) rest
+    match ← jStr? (arg a 0) with
+    | "f" =>
+      some (.leaf { name := ← jStr? (arg a 1), kind := ← parseAKind (← jStr? (arg a 2)), tag := ← jStr? (arg a 3),
+                    defCol := ← jStr? (arg a 4), selfSer := ← jBool? (arg a 5), ptr := ← jBool? (arg a 6) } next)
+    | "e" =>
+      let kids ← parseADecl fuel (← jArr? (arg a 4)).toList
+      some (.embed (← jStr? (arg a 1)) (← jBool? (arg a 2)) (← jStr? (arg a 3)) kids next)
+    | _ => none
+
+def dtStr : Attrs.DT → String
+  | .none => "" | .bool => "bool" | .int => "int" | .uint => "uint" | .float => "float" | .string => "string"
+  | .time => "time" | .bytes => "bytes"
+
+def ttNat : Attrs.TT → Nat
+  | .none => 0 | .unixTime => 1 | .sec => 2 | .milli => 3 | .nano => 4
+
+def defValJ : Option Attrs.DefVal → Json
+  | none => Json.null
+  | some (.bool b) => Json.arr #[Json.str "bool", Json.bool b]
+  | some (.int n) => Json.arr #[Json.str "int", intJ n]
+  | some (.str s) => Json.arr #[Json.str "str", Json.str s]
+  | some .float => Json.arr #[Json.str "float"]
+
+def afieldJ (f : Attrs.AField) : Json :=
+  Json.arr #[Json.str f.name, Json.str f.dbName, strListJ f.path, Json.str (dtStr f.gormDT), Json.bool f.typed,
+    Json.bool f.primaryKey, Json.bool f.autoInc, intJ f.autoIncInc, Json.bool f.hasDefault, Json.str f.defaultValue,
+    defValJ f.defaultIface, Json.bool f.creatable, Json.bool f.updatable, Json.bool f.readable,
+    natJ (ttNat f.autoCreate), natJ (ttNat f.autoUpdate), Json.bool f.ignoreMigration]
+
+def parseBoolList (j : Json) : Option (List Bool) := do (← jArr? j).toList.mapM jBool?
+
 end HC03
 open HC03 in
 def handleC03 (op : String) (args : Array Json) : Option Json := do
@@ -299,6 +345,20 @@ def handleC03 (op : String) (args : Array Json) : Option Json := do
     some (Json.arr #[strListJ ins, ret,
       Json.arr (pairs.map (fun p => intListJ (memAfter sup cols (genOf p.2) p.1))).toArray,
       Json.arr (pairs.map (fun p => intListJ (rowOf cols (genOf p.2) p.1))).toArray])
+  | "c03.attrs" =>
+    -- ["c03.attrs", decl, [[single, [nonzero per schema field]], …]] →
+    --   "error" | "unmodelled" | [fields, dbNames, owners, primaryFields, prioritized|null, withDefaultDB, RETURNING list, [INSERT columns …]]
+    let d ← parseADecl 200 (← jArr? (arg args 1)).toList
+    let qs ← (← jArr? (arg args 2)).toList.mapM (fun q => do
+      let a ← jArr? q
+      some (← jBool? (arg a 0), ← parseBoolList (arg a 1)))
+    let s := Attrs.parseDecl d
+    if s.unmodelled then some (Json.str "unmodelled")
+    else if s.bad then some (Json.str "error")
+    else
+      some (Json.arr #[Json.arr (s.fields.map afieldJ).toArray, strListJ s.dbNames, natListJ (s.byDB.map (·.2)),
+        natListJ s.primaryFields, optNatJ s.prioritized, natListJ s.withDefaultDB, strListJ (Attrs.withDefaultNames s),
+        Json.arr (qs.map (fun q => strListJ (Attrs.insertColsA q.1 s (fun i => (nth? q.2 i).getD false)))).toArray])
   | _ => none
 
 end Gorm.Drv
